@@ -1883,6 +1883,17 @@ static void get_user_data (interactive_t* ip, io_event_t* evt) {
           ip->text_start = 0;
           ip->text_end = len;
           text_space = (MAX_TEXT - ip->text_end - 1) / 3;
+          if (text_space < MAX_TEXT / 16 && cmd_in_buf (ip) &&
+              !(evt && evt->buffer && evt->bytes_transferred > 0))
+            {
+              /* The buffer is full of complete commands that have not had
+               * their turn yet. Leave the new data in the socket (readiness
+               * is level-triggered, TCP flow control does the rest) and come
+               * back when some of them have been executed.
+               */
+              ip->iflags |= CMD_IN_BUF;
+              return;
+            }
           if (text_space < MAX_TEXT / 16)
             {
               /* We've got almost 2k of data without a newline.
